@@ -55,6 +55,15 @@ struct Alloc : AllocState<Tr>
     template <class U> bool operator!=(Alloc<U, Tr> const& o) const { return this->arena_id() != o.arena_id(); }
 };
 
+// how the engine makes an allocator for an arena and asks an allocator for its arena
+template <class Tr> struct AllocOps
+{
+    using type = Alloc<unsigned char, Tr>;
+    static type make(int arena) { return type(arena); }
+    static int arena_of(type const& a) { return a.arena_id(); }
+    static void begin_run() {}
+};
+
 #if __cplusplus >= 201703L
 // memory_resource over the same world: arena id = resource id (1000+id so it is distinguishable in reports)
 struct Resource : std::pmr::memory_resource
@@ -64,6 +73,22 @@ struct Resource : std::pmr::memory_resource
     void* do_allocate(std::size_t bytes, std::size_t) override { return world()->allocate(id, bytes); }
     void do_deallocate(void* p, std::size_t bytes, std::size_t) override { world()->deallocate(id, p, bytes); }
     bool do_is_equal(std::pmr::memory_resource const& o) const noexcept override { return this == &o; }
+};
+
+// std::pmr::polymorphic_allocator<unsigned char> (what boost::gil::pmr::*_image_t use): stateful, never propagates,
+// not assignable; a default-constructed one uses the default resource, which the engine points at arena 0
+struct Pmr { static constexpr bool stateful = true; static constexpr bool propagate = false; static constexpr char const* name = "pmr"; };
+inline Resource& pmr_resource(int arena)
+{
+    static Resource r[3] = {Resource(0), Resource(1), Resource(2)};
+    return r[arena % 3];
+}
+template <> struct AllocOps<Pmr>
+{
+    using type = std::pmr::polymorphic_allocator<unsigned char>;
+    static type make(int arena) { return type(&pmr_resource(arena)); }
+    static int arena_of(type const& a) { return static_cast<Resource*>(a.resource())->id; }
+    static void begin_run() { std::pmr::set_default_resource(&pmr_resource(0)); }
 };
 #endif
 
